@@ -37,6 +37,10 @@ EncOK(i) ==
         ELSE /\ Chk(c.exc = "", <<"CASE_REJECTED", i, "enc", "raised", c.exc>>)
              /\ Chk(c.text = f.text, <<"CASE_REJECTED", i, "enc", "text frame", "spec", f.text, "impl", c.text>>)
              /\ Chk(c.atts = f.atts, <<"CASE_REJECTED", i, "enc", "attachments", "spec", f.atts, "impl", c.atts>>)
+             \* encoding is a function of the packet: a second encode() gives the same frames
+             \* and the payload object the application handed over is left as it was
+             /\ Chk(c.text2 = f.text /\ c.atts2 = f.atts, <<"CASE_REJECTED", i, "enc", "second encode() differs", "spec", f.text, "impl", c.text2>>)
+             /\ Chk(c.intact, <<"CASE_REJECTED", i, "enc", "encode() modified the payload it was given">>)
 
 DecOK(i) ==
     LET c == Cases[i] f == RefFrame(c.p) d == Decoded(c.p)
